@@ -624,3 +624,176 @@ def t_rmw_guard(facts, res, tier):
         if rec["bad"]:
             s = rec["bad"][0]
             res.fail(key, facts.where(s["fn"], s["node"]), "%s can emit %s on a memory operand without having excluded split-port cartridge RAM (Superchip / MemoryOnChip): a read-modify-write instruction reads and writes the same address, which such RAM does not support" % (s["fn"]["name"], key.split(":")[-1]))
+
+
+# ---------------------------------------------------------------- what `flags` claims must be what N/Z hold
+
+
+def _claim_base(v):
+    """FlagsState::Absolute(K.0, K.1, K.2) / AbsoluteX(K.0) -> ('K', variant) when built from the fields of one operand."""
+    if not (isinstance(v, EnumV) and v.enum == "FlagsState" and v.variant in ("Absolute", "AbsoluteX", "AbsoluteY") and v.payload):
+        return None
+    a = v.payload[0]
+    if isinstance(a, Sym) and a.key.endswith(".0"):
+        return a.key[:-2], v.variant
+    return None
+
+
+def _sim16(seq, wide):
+    """Exhaustively run a short sequence of INC/DEC/LDA/branch/label on one variable.
+    seq items: ('INC'|'DEC'|'LDA', part) part in {'lo','hi'}; ('B..', label); ('label', name).
+    Returns (z_ok, n_ok, witness_z, witness_n) over all values of the variable."""
+    top = 65536 if wide else 256
+    z_ok = n_ok = True
+    wz = wn = None
+    labels = {}
+    for i, it in enumerate(seq):
+        if it[0] == "label":
+            labels[it[1]] = i
+    for v0 in range(top):
+        lo, hi = v0 & 255, v0 >> 8
+        N = Z = None
+        pc = 0
+        steps = 0
+        while pc < len(seq) and steps < 100:
+            steps += 1
+            op = seq[pc]
+            if op[0] in ("INC", "DEC"):
+                d = 1 if op[0] == "INC" else -1
+                if op[1] == "lo":
+                    lo = (lo + d) & 255
+                    r = lo
+                else:
+                    hi = (hi + d) & 255
+                    r = hi
+                N, Z = r >> 7, int(r == 0)
+            elif op[0] == "LDA":
+                r = lo if op[1] == "lo" else hi
+                N, Z = r >> 7, int(r == 0)
+            elif op[0] in ("BNE", "BEQ", "BMI", "BPL"):
+                if Z is None:
+                    return None
+                taken = {"BNE": Z == 0, "BEQ": Z == 1, "BMI": N == 1, "BPL": N == 0}[op[0]]
+                if taken:
+                    if op[1] not in labels or labels[op[1]] < pc:
+                        return None
+                    pc = labels[op[1]]
+            pc += 1
+        v1 = (hi << 8 | lo) if wide else lo
+        if Z is None:
+            return None
+        if Z != int(v1 == 0) and z_ok:
+            z_ok, wz = False, (v0, v1)
+        if N != (v1 >> (15 if wide else 7)) and n_ok:
+            n_ok, wn = False, (v0, v1)
+    return z_ok, n_ok, wz, wn
+
+
+@rule("T-FLAGS-VALUE", floor=6,
+      text="wherever a generator function assigns `flags` a value naming a memory operand, the N/Z flags really describe that operand at that point: (i) structurally, the last N/Z-changing instruction emitted on the path is a load/INC/DEC of that operand, or it set A and A was then stored to the operand; (ii) for a 16-bit operand updated by an INC/DEC idiom with skip branches, the emitted sequence is evaluated for all 65536 values and Z must equal (value == 0) and N its sign bit")
+def t_flags_value(facts, res, tier):
+    seen = set()
+    for fn in gen_fns(facts):
+        if fn["name"] in ("new", "asm"):
+            continue
+        for kind, value, st in fn_paths(facts, fn):
+            if is_error_exit(value):
+                continue
+            evs = st.events
+            for i, e in enumerate(evs):
+                if e["kind"] != "set" or e["field"] != "flags":
+                    continue
+                cb = _claim_base(e["value"])
+                if cb is None:
+                    continue
+                base, variant = cb
+                # emissions of this function since its start (or since the last call into another generator function)
+                start = 0
+                for j in range(i - 1, -1, -1):
+                    if evs[j]["kind"] == "call":
+                        start = j + 1
+                        break
+                window = evs[start:i]
+                # width of the claim
+                wide = False
+                if variant == "Absolute" and len(e["value"].payload) > 1:
+                    eb = e["value"].payload[1]
+                    d = domain_of(st, eb, facts, universe=[True, False])
+                    wide = d is not None and d == {False}
+                    maybe_wide = d is None or False in d
+                else:
+                    maybe_wide = False
+                    for k2, (allowed, excl) in st.cons.items():
+                        if k2.endswith(".var_type") and ("(%s.0)" % base) in k2 and allowed is not None:
+                            if set(allowed) <= {"ShortPtr", "CharPtrPtr", "Short"}:
+                                wide = True
+                            elif set(allowed) & {"ShortPtr", "CharPtrPtr", "Short"}:
+                                maybe_wide = True
+                # abstract pass: what do N/Z describe?
+                desc = None      # ('mem', part) of the claimed operand | 'A' | None
+                a_eq = set()     # parts of the claimed operand A is known to equal
+                seq = []
+                simulable = True
+                for w in window:
+                    if w["kind"] == "label":
+                        a0 = w["args"][0]
+                        seq.append(("label", a0.template if isinstance(a0, Fmt) else repr(a0)))
+                        continue
+                    if w["kind"] not in ("asm", "sasm", "sasm_protected"):
+                        continue
+                    m = ev_mnemonics(facts, st, w)
+                    if not m or len(m) != 1:
+                        desc, simulable = None, False
+                        continue
+                    mn = next(iter(m))
+                    opv = w["args"][1] if w["kind"] == "asm" and len(w["args"]) > 1 else None
+                    hb = w["args"][3] if w["kind"] == "asm" and len(w["args"]) > 3 else Const(False)
+                    same = isinstance(opv, Sym) and opv.key == base
+                    part = "hi" if (isinstance(hb, Const) and hb.v is True) else "lo"
+                    if MN[mn]["kind"] == "branch":
+                        lab = opv.payload[0] if isinstance(opv, EnumV) and opv.payload else None
+                        seq.append((mn, lab.template if isinstance(lab, Fmt) else repr(lab)))
+                        continue
+                    if mn in ("INC", "DEC") and same:
+                        desc = ("mem", part)
+                        a_eq.discard(part)
+                        seq.append((mn, part))
+                    elif mn == "LDA" and same:
+                        desc = "A"
+                        a_eq = {part}
+                        seq.append((mn, part))
+                    elif mn == "LDA":
+                        desc, a_eq, simulable = "A", set(), False
+                    elif mn in ("STA",) and same:
+                        a_eq.add(part)
+                        simulable = False
+                    elif MN[mn]["nz"]:
+                        simulable = False
+                        if "A" in MN[mn]["writes_reg"]:
+                            desc, a_eq = "A", set()
+                        else:
+                            desc = None
+                    elif mn in ("STA", "STX", "STY"):
+                        simulable = False
+                key = "T-FLAGS-VALUE:%s:%s:%s" % (fn["name"], variant, "+".join("%s.%s" % (x[0], x[1]) for x in seq if x[0] in ("INC", "DEC", "LDA")) or "store")
+                if key in seen:
+                    continue
+                seen.add(key)
+                supported = desc == ("mem", "lo") or (desc == "A" and "lo" in a_eq) or (desc == ("mem", "hi") and wide)
+                res.inst(key, True, {"function": fn["name"], "claims": variant, "wide": wide, "nz_describe": repr(desc), "a_equals": sorted(a_eq)})
+                if wide and simulable and any(x[0] in ("INC", "DEC") for x in seq):
+                    r = _sim16(seq, True)
+                    if r is None:
+                        res.fail(key, facts.where(fn, e["node"]), "%s: cannot evaluate the update sequence %s" % (fn["name"], seq))
+                        continue
+                    z_ok, n_ok, wz, wn = r
+                    if not z_ok:
+                        res.fail(key + ":Z", facts.where(fn, e["node"]), "%s records that the flags describe the 16-bit operand after %s, but Z is wrong: for value %d the result is %d and Z says %s" % (
+                            fn["name"], [x for x in seq if x[0] != "label"], wz[0], wz[1], "zero" if wz[1] != 0 else "non-zero"))
+                    if not n_ok:
+                        res.fail(key + ":N", facts.where(fn, e["node"]), "%s records that the flags describe the 16-bit operand after %s, but N is not its sign: value %d becomes %d and N shows the sign of a single byte; a following `< 0` / `>= 0` test branches on it" % (
+                            fn["name"], [x for x in seq if x[0] != "label"], wn[0], wn[1]))
+                    continue
+                if not supported and not maybe_wide:
+                    res.fail(key, facts.where(fn, e["node"]), "%s records that the flags describe %s operand `%s`, but the last N/Z-changing instruction emitted on this path does not load, increment, decrement or store that operand (N/Z describe %s)" % (
+                        fn["name"], variant, base, desc))
